@@ -21,8 +21,8 @@ Definition mol_v2 : wiring :=
     [AElement; AIsotope; ALabel; AAtype; AStereo; AGeom; AFCharge; AFSpin; AAttrib]
     [BA1; BA2; BLabel; BBtype; BStereo; BFOrder; BAttrib]
     [BA1; BA2; BLabel; BBtype; BStereo; BFOrder; BAttrib]
-    [(OCharges, F4BE); (OCoords, F2BE)]
-    [(OCharges, F4BE); (OCoords, F2BE)]
+    [(OCharges, F4BE); (OCoords, F4BE)]
+    [(OCharges, F4BE); (OCoords, F4BE)]
     gen_adflt gen_bdflt.
 
 Definition ens_v2 : wiring :=
